@@ -25,7 +25,7 @@ MANIFEST = dict(
          'relations on the implementation on every run.',
     note=common.TB_NOTE + 'no axioms under any C03 theorem. Hand-written model tied by correspondence; integer-valued signals in the model; '
          'NaN handling is modelled for find_turns (tied by its own correspondence run), not for the detectors\' tail bookkeeping; pandas Series glue is not modelled (implementation relations only).',
-    technique='Coq proof (equivariance by induction over scanner and stack machine; bounded vm_compute for 3pt) + implementation relations',
+    technique='Coq proof (equivariance by induction over scanner, stack machine and the three-point kernel; all unbounded, bounded sweeps kept as independent evaluation) + implementation relations',
     design='6/C03')
 
 
